@@ -45,6 +45,9 @@ CHECKS = {
  "C19": dict(tech="static analysis: who-may-call rules, must-pass guard queries for Step/Adjust, sign-inversion parity of the step argument, reset-before-dispatch path rule, two-sided clamp recogniser on SSA",
    text="Structural necessary conditions decided exactly for their clause: the only Step call is in Pll.Do behind mode==1, mdt>2s, weight>3, |offset|>1ms, steps by the caller's offset (even inversion parity) and is followed by t0<-now and mode++; every path to the mode dispatch has epoch==clk.Epoch() or passed mode<-0 (epoch recorded); the only Adjust call gets Duration(p) with p = 0 outside tracking and two-sidedly clamped to +-ceil(dt)*500e-6 in tracking, and is reachable only through d > 0. Integrator finiteness and gains are not decided.",
    ref="DESIGN.md §4 C19"),
+ "C02": dict(tech="static analysis: sort-before-read path rule, effect rule (no stores through the slice), canonical index expressions with opaque integer division, midpoint form recogniser, result-construction provenance on SSA",
+   text="Structural premises of the containment lemma decided exactly: all element reads behind slices.Sort/SortFunc (comparator = cmp.Compare on Offset only); no writes through the slice; indices (n-1)/3 and n-1-(n-1)/3 (FTM), n/2 and n/2-1 with n%2 split (median); n==0 panics; Midpoint = x+(y-x)/2; measurement results built from Offset/Timestamp of the selected elements only (Error nil), timestamp = earlier+(later-earlier)/2. The lemma itself is mathematics stated in DESIGN.md, not re-derived.",
+   ref="DESIGN.md §4 C02"),
 }
 NA = {
  "C04": "all clauses are value arithmetic over time.Time/uint32 (truncation direction, era unfolding, order preservation); no structural or finite-domain clause; matching the constants would be a frozen-fragment proxy",
